@@ -117,6 +117,69 @@ func (d *tracedDA) Get(ctx context.Context, ids []coreda.ID, ns []byte) ([]cored
 	return d.DADouble.Get(ctx, ids, ns)
 }
 
+// mempoolDA is the aggregator's view of a DA layer with a crowded mempool: every submission of a stream (headers,
+// data) is turned away `run` times in a row with a mempool-type answer (not included in a block in time / already in
+// the mempool) before the next one gets through to the double, and the acknowledgements of submissions of the two
+// streams that got through at about the same time (the same DA block) arrive together.
+type mempoolDA struct {
+	*tracedDA
+	run  int
+	wait time.Duration
+	mu   sync.Mutex
+	left map[bool]int // per stream (false = headers, true = data): rejections to come before a submission gets through
+	n    int
+	runs map[bool]int // per stream: submissions that got through after `run` rejections
+	meet chan struct{}
+}
+
+func newMempoolDA(inner *tracedDA, run int, wait time.Duration) *mempoolDA {
+	return &mempoolDA{tracedDA: inner, run: run, wait: wait, left: map[bool]int{false: run, true: run}, runs: map[bool]int{}, meet: make(chan struct{})}
+}
+
+func (d *mempoolDA) SubmitWithOptions(ctx context.Context, blobs []coreda.Blob, gasPrice float64, ns []byte, opts []byte) ([]coreda.ID, error) {
+	data := false
+	if len(blobs) > 0 {
+		_, data, _ = world.DecodeBlobHeight(blobs[0])
+	}
+	d.mu.Lock()
+	if d.left[data] > 0 {
+		d.left[data]--
+		d.n++
+		odd := d.n%2 == 1
+		d.mu.Unlock()
+		d.t.point(d.node + ".da-mempool-rejection")
+		if odd {
+			return nil, fmt.Errorf("da double: %w", coreda.ErrTxTimedOut)
+		}
+		return nil, coreda.ErrTxAlreadyInMempool
+	}
+	d.left[data] = d.run
+	d.runs[data]++
+	d.mu.Unlock()
+	ids, err := d.tracedDA.SubmitWithOptions(ctx, blobs, gasPrice, ns, opts)
+	if err == nil {
+		t := time.NewTimer(d.wait)
+		select {
+		case d.meet <- struct{}{}:
+		case <-d.meet:
+		case <-t.C:
+		case <-ctx.Done():
+		}
+		t.Stop()
+	}
+	return ids, err
+}
+
+func (d *mempoolDA) Submit(ctx context.Context, blobs []coreda.Blob, gasPrice float64, ns []byte) ([]coreda.ID, error) {
+	return d.SubmitWithOptions(ctx, blobs, gasPrice, ns, nil)
+}
+
+func (d *mempoolDA) passed() (int, int) {
+	d.mu.Lock()
+	defer d.mu.Unlock()
+	return d.runs[false], d.runs[true]
+}
+
 // tracedExec wraps the execution double.
 type tracedExec struct {
 	*world.ExecDouble
@@ -179,6 +242,14 @@ func (p *seqProxy) VerifyBatch(ctx context.Context, req coresequencer.VerifyBatc
 	return p.inner.VerifyBatch(ctx, req)
 }
 
+// RecordMetrics: the real sequencer takes the submission and inclusion metrics of the block manager (it is called from
+// both submission loops and from the DA-inclusion loop); the proxy passes them on.
+func (p *seqProxy) RecordMetrics(gasPrice float64, blobSize uint64, code coreda.StatusCode, pending uint64, included uint64) {
+	if mr, ok := p.inner.(block.MetricsRecorder); ok {
+		mr.RecordMetrics(gasPrice, blobSize, code, pending, included)
+	}
+}
+
 // Config is one configuration of the concurrent world.
 type Config struct {
 	ID          int           `json:"id"`
@@ -191,7 +262,10 @@ type Config struct {
 	DADelayUs   int           `json:"da_delay_us"`
 	ExecDelayUs int           `json:"exec_delay_us"` // the execution client takes up to this long per call
 	InjectGaps  bool          `json:"inject_gaps"`   // the mempool runs dry now and then: empty blocks between full ones
-	Seed        int64         `json:"seed"`
+	// MempoolRun > 0: the DA layer's mempool is crowded: each stream's submissions are turned away this many times in a
+	// row (timed out / already in mempool) before one gets through (the manager runs with gas price 1, multiplier 1.5)
+	MempoolRun int   `json:"mempool_rejections_before_acceptance,omitempty"`
+	Seed       int64 `json:"seed"`
 }
 
 type loopSet struct {
@@ -337,8 +411,14 @@ func runUniverse(r *vk.Run, cfg Config) {
 		return
 	}
 	proxy := &seqProxy{inner: seq, t: tr}
+	var aggDA coreda.DA = &tracedDA{da, tr, "agg"}
+	var crowded *mempoolDA
+	if cfg.MempoolRun > 0 {
+		crowded = newMempoolDA(&tracedDA{da, tr, "agg"}, cfg.MempoolRun, 2*cfg.DATime)
+		aggDA = crowded
+	}
 	agg, err := world.NewNode(ctx, world.NodeOpts{Aggregator: true, Lazy: cfg.Lazy, BlockTime: cfg.BlockTime, DABlockTime: cfg.DATime, LazyInterval: 4 * cfg.BlockTime, MaxPending: cfg.MaxPending, GenesisTime: time.Now().Add(-time.Hour)},
-		keys, ads, &tracedExec{aexec, tr, "agg", heightFn(&aggRef), earlyFn("aggregator")}, proxy, &tracedDA{da, tr, "agg"}, nil)
+		keys, ads, &tracedExec{aexec, tr, "agg", heightFn(&aggRef), earlyFn("aggregator")}, proxy, aggDA, nil)
 	if err != nil {
 		r.Violation("startup", err.Error(), cfg)
 		return
@@ -694,6 +774,12 @@ func runUniverse(r *vk.Run, cfg Config) {
 	r.Count("da_included_agg", int64(agg.M.GetDAIncludedHeight()))
 	r.Count("da_included_full", int64(full.M.GetDAIncludedHeight()))
 	r.Count("interleaving_windows_seen", int64(nsig))
+	if crowded != nil {
+		ph, pd := crowded.passed()
+		r.HitN("submission-through-after-mempool-rejections", int64(ph+pd))
+		r.Count("header_submissions_through_after_mempool_rejections", int64(ph))
+		r.Count("data_submissions_through_after_mempool_rejections", int64(pd))
+	}
 	progressed := 0
 	for _, n := range []int64{int64(ha), int64(hf), int64(lh), int64(ld), int64(agg.M.GetDAIncludedHeight()), int64(full.M.GetDAIncludedHeight())} {
 		if n > 1 {
